@@ -23,7 +23,7 @@ import (
 // case starts by reloading the file with its own contents.
 
 type seqOp struct {
-	Op      string     `json:"op"` // "try" | "reload"
+	Op      string     `json:"op"` // "try" | "reload" | "remove" (the htpasswd file disappears: the credentials are cleared)
 	Mode    string     `json:"mode,omitempty"`
 	User    string     `json:"user,omitempty"`
 	Pass    string     `json:"pass,omitempty"`
@@ -99,6 +99,23 @@ func seqReload(secrets [][]string) error {
 	return nil
 }
 
+// seqRemove deletes the htpasswd file and waits until the refresh goroutine has noticed (the sentinel of the
+// current generation stops being accepted): from then on the scheme knows no user at all.
+func seqRemove() error {
+	pw := fmt.Sprintf("generation-%d", seqGen)
+	if err := os.Remove(seqFile); err != nil && !os.IsNotExist(err) {
+		return err
+	}
+	deadline := time.Now().Add(5 * time.Second)
+	for seqTry(credIn{Mode: "basic", User: seqSentinel, Pass: pw}) {
+		if time.Now().After(deadline) {
+			return fmt.Errorf("removal of the htpasswd file not noticed within 5s")
+		}
+		time.Sleep(500 * time.Microsecond)
+	}
+	return nil
+}
+
 func runAuthSeq(raw json.RawMessage) (interface{}, error) {
 	var in seqIn
 	if err := json.Unmarshal(raw, &in); err != nil {
@@ -114,6 +131,7 @@ func runAuthSeq(raw json.RawMessage) (interface{}, error) {
 			if err := checkSecrets(op.Secrets); err != nil {
 				return nil, err
 			}
+		case "remove":
 		default:
 			return nil, fmt.Errorf("unknown op %q", op.Op)
 		}
@@ -144,6 +162,12 @@ func runAuthSeq(raw json.RawMessage) (interface{}, error) {
 	for _, op := range in.Ops {
 		if op.Op == "reload" {
 			if err := seqReload(op.Secrets); err != nil {
+				return nil, err
+			}
+			continue
+		}
+		if op.Op == "remove" {
+			if err := seqRemove(); err != nil {
 				return nil, err
 			}
 			continue
@@ -197,6 +221,9 @@ func genSeq(r *hx.Rand) seqIn {
 			op = seqOp{Op: "try", Mode: "none"}
 		case k == 17 && last != nil:
 			op = *last
+		case k == 18 && i+1 < n:
+			// the file disappears: nobody is known any more (attempts keep drawing on the pairs that were valid)
+			op = seqOp{Op: "remove"}
 		default:
 			cur = genSecrets(r)
 			op = seqOp{Op: "reload", Secrets: cur}
@@ -219,6 +246,7 @@ func init() {
 			seqIn{Secrets: [][]string{{"a", "bc"}}, Ops: []seqOp{try("ab", "c"), try("a", "bc"), try("ab", "c")}},
 			seqIn{Secrets: [][]string{{"alice", "secret"}, {"al", "ice"}}, Ops: []seqOp{try("alice", "secret"), try("al", "icesecret"), try("alices", "ecret"), {Op: "try", Mode: "none"}, try("al", "ice"), try("alice", "")}},
 			seqIn{Secrets: [][]string{{"a", "bc"}}, Ops: []seqOp{try("a", "bc"), {Op: "reload", Secrets: [][]string{{"ab", "c"}}}, try("a", "bc"), try("ab", "c"), try("abc", "")}},
+			seqIn{Secrets: [][]string{{"a", "bc"}}, Ops: []seqOp{try("a", "bc"), {Op: "remove"}, try("a", "bc"), try("ab", "c"), {Op: "reload", Secrets: [][]string{{"a", "bc"}}}, try("a", "bc")}},
 			seqIn{Secrets: [][]string{{"x", "c:d"}}, Ops: []seqOp{try("x", "c:d"), try("xc", ":d"), try("x", "c"), try("x", "c:d")}},
 		},
 		Gen: func(r *hx.Rand, i int) interface{} { return genSeq(r) },
